@@ -176,6 +176,20 @@ def evaluate(desc, R):
                 V.append({"class": "text-changed-by-analysis", "target": None, "observed": {"reader": None, "writers": None, "schedule": si, "pass": pi}})
             if not p["class_ok"]:
                 V.append({"class": "classification-changed-by-analysis", "target": None, "observed": {"reader": None, "writers": None, "schedule": si, "pass": pi}})
+            # the reports (JSON dictionary, syntastic lines) list exactly the per-rule violations:
+            # together with the per-rule comparisons below this is "disabling D removes exactly
+            # D's violations from the report"
+            want_rep = sorted((u, str(l), str(sol)) for u, vs in p["V"].items() for (l, sol) in vs)
+            for key in ("rep_json", "rep_syn"):
+                gotr = p.get(key)
+                if key == "rep_syn":
+                    want_rep = sorted((u, l) for (u, l, _s) in want_rep)
+                if gotr is not None and sorted(tuple(x) for x in gotr) != want_rep and ("report", si, pi) not in seen:
+                    seen.add(("report", si, pi))
+                    g = sorted(tuple(x) for x in gotr)
+                    miss = [x for x in want_rep if x not in g][:3]
+                    extra = [x for x in g if x not in want_rep][:3]
+                    V.append({"class": "report-depends-on-schedule", "target": (miss or extra or [[None]])[0][0], "observed": {"reader": None, "writers": None, "note": "%s report differs from the per-rule violation lists" % key, "missing": miss, "extra": extra, "schedule": si, "pass": pi}})
             ranset = set(ran)
             spec = desc["schedules"][si]["passes"][pi] if si < len(desc.get("schedules") or []) and pi < len(desc["schedules"][si].get("passes") or []) else {}
             for u in meta:
